@@ -283,6 +283,16 @@ def literal_domains(tier, rng):
         if tier != "quick":
             out.append(b"[" + a + b"]")
     out += [b"[", b"[]", b"[[]]", b"[1.2.3.4]]", b"[[1.2.3.4]", b"[1.2.3.4][", b"[]1.2.3.4]"]
+    # every byte value at every position of the tag (a hand-written case fold maps control bytes onto '6' and ':')
+    tag = b"IPv6:"
+    for pos in range(5):
+        for b in range(1, 256):
+            if bytes([b]).lower() == tag[pos:pos + 1].lower():
+                continue
+            t = tag[:pos] + bytes([b]) + tag[pos + 1:]
+            out.append(b"[" + t + b"::1]")
+            if tier != "quick" or b < 64:
+                out.append(b"[" + t + b"1:2:3:4:5:6:7:8]")
     return out
 
 
@@ -418,6 +428,9 @@ def email_strings(tier, rng):
             l = e * n + b"a" * r
             out += [l + b"@b.com", l + "@почта.рф".encode(), b'"' + l[:-2] + b'"@b.com']
         out.append(e * 64 + b"@b.com")
+    # local parts whose length is small only modulo 256 / 65536, and very long local parts in front of a short domain
+    for ll in (255, 256, 257, 300, 310, 320, 321, 400, 512, 576, 65536 + 10):
+        out += [b"a" * ll + b"@example.com", b"a" * ll + b"@[192.0.2.1]"]
     # both halves long at once: every limit is per half, there is no limit on the sum
     for ll in (1, 10, 32, 63, 64, 65):
         for dl in (150, 190, 191, 192, 193, 200, 245, 246, 247, 252, 253, 254, 255, 256):
